@@ -13,7 +13,7 @@ def load_rule_modules():
 
 PROPS = {
     "C01": {
-        "rules": ["C01.R1", "C01.R2", "C01.R3", "C01.R4", "C01.R5", "C01.R6", "C01.R9", "C03.R4", "C03.R5", "C07.R4", "C20.R2", "C18.R1", "C18.R2", "C13.R1", "C13.R2", "C13.R3"],
+        "rules": ["C01.R1", "C01.R2", "C01.R3", "C01.R4", "C01.R5", "C01.R6", "C01.R8", "C01.R9", "C03.R4", "C03.R5", "C07.R4", "C20.R2", "C18.R1", "C18.R2", "C13.R1", "C13.R2", "C13.R3"],
         "explanation": "Decides the integrity of the up-to-date decision (each rule a necessary condition of C01): history looked up and recorded under this rule's sources hash; sources hash covers every upstream hash in receiver order; remembered vector index-aligned with the targets; AlreadyCorrect only under a full Ticket equality with the current hash of the same file; command skipped only when no target needs rebuilding; what is recorded is what was read from disk after a successful command; producer/consumer sub-index agreement; a status of Recovered only where a restore happened; the mtime shortcut is exact. Not decided: byte equality with a from-scratch build over arbitrary histories (runtime state).",
     },
     "C02": {
@@ -21,7 +21,7 @@ PROPS = {
         "explanation": "Decides: at most one command execution per rule per build (no call site of the chain on a cycle or twice on a path); the Up-to-date path reaches no mutating System method; the command runs only on the true edge of needs-rebuild; NeedsRebuild only after the cache (and download) said NotThere; what was learned is persisted (history returned and written). Not decided: that a lookup hits on a given history.",
     },
     "C03": {
-        "rules": ["C03.R1", "C03.R2", "C03.R3", "C03.R4", "C03.R5"],
+        "rules": ["C03.R1", "C03.R2", "C03.R3", "C03.R4", "C03.R5", "C09.R3"],
         "explanation": "Decides the happens-before chain of C03 as it is visible in the code's shape: handler only on the Ok edge of the draining function; draining function returns Ok only after recv succeeded on every receiver; hashes are announced only after the handler returned Ok and are taken from its result by the sub-index stored with the sender. Not decided: correctness of the announced content, acyclicity of the runtime plan.",
     },
     "C04": {
@@ -33,7 +33,7 @@ PROPS = {
         "explanation": "Decides the channel protocol that makes build/clean terminate: exactly one packet per edge per return path, receivers drained completely, all spawns before any join and every handle joined. Not decided: acyclicity of the runtime wait-for graph (sorter output).",
     },
     "C06": {
-        "rules": ["C06.R1", "C06.R3", "C06.R3b", "C05.R1", "C01.R2"],
+        "rules": ["C06.R1", "C06.R3", "C06.R3b", "C09.R3", "C12.R1", "C05.R1", "C05.R3", "C01.R2"],
         "explanation": "Non-interference argument: threads share nothing but channels and the file system (capture inventory); the only contended resource is the cache directory, on which no check-then-act may turn a lost race into a hard error; absence of a cache entry is never an error; channel results are consumed in receiver order, never arrival order. Not decided: equality of final bytes.",
     },
     "C07": {
@@ -95,8 +95,35 @@ PROPS = {
 }
 
 
+PC_PROPS = {"C08", "C05", "C06", "C12", "C02", "C10"}
+_pc_cache = {}
+
+
 def positive_controls(pid, tier, here):
-    return {"fired": [], "errors": []}
+    """Zero-expected clauses must fire on fixtures/positive (analysed by the same driver)."""
+    if pid not in PC_PROPS:
+        return {"fired": [], "errors": []}
+    import subprocess
+    import hashlib
+    from lib.mir import load
+    import zero
+    src = os.path.join(here, "fixtures", "positive")
+    h = hashlib.sha256()
+    for fn in ("Cargo.toml", "src/main.rs"):
+        with open(os.path.join(src, fn), "rb") as f:
+            h.update(f.read())
+    with open(os.path.join(here, "engine", "driver", "src", "main.rs"), "rb") as f:
+        h.update(f.read())
+    prefix = os.path.join(here, ".cache", "facts", "posctl-" + h.hexdigest()[:12])
+    if not os.path.exists(prefix + ".json"):
+        env = dict(os.environ, RULER_FACTS_CRATE="posctl")
+        env.pop("RULER_FACTS_TARGET", None)
+        r = subprocess.run([os.path.join(here, "engine", "extract.sh"), src, prefix], env=env, stdout=subprocess.PIPE, stderr=subprocess.STDOUT, text=True)
+        if r.returncode != 0:
+            return {"fired": [], "errors": ["cannot analyse the positive-control fixture: " + r.stdout.strip()[-200:]]}
+    fired, errors = zero.run_positive_controls(load(prefix + ".json"))
+    return {"fired": fired, "errors": errors}
+
 
 NOT_APPLICABLE = {}
 SOURCE_COMMITS = []   # hook commits only (none: nothing in /repo is instrumented)
